@@ -404,8 +404,17 @@ def install(eng):
         def f(eng, st, args, kw, node):
             return one(st, Opaque())
         B[name] = Fn(f, name)
-    for nm in ('set', 'frozenset', 'sorted', 'chr', 'repr', 'str', 'hex', 'ord'):
+    for nm in ('set', 'frozenset', 'chr', 'repr', 'str', 'hex', 'ord'):
         opaque_fn(nm)
+
+    @reg('sorted')
+    def _sorted(eng, st, args, kw, node):
+        v = args[0]
+        if isinstance(v, (View, bytes, Tup)):
+            vv = as_view(v)
+            if is_conc_int(vv.length) and all(is_concrete(vv.get(i)) for i in range(vv.length)):
+                return one(st, conc_seq_view(sorted(vv.get(i) for i in range(vv.length)), vv.ekind, 'list'))
+        return one(st, Opaque())
 
     @method('join')
     def _join(eng, st, args, kw, node):
@@ -737,6 +746,13 @@ def install(eng):
         f['data'] = nd
         f['pos'] = end
         return one(st, b.length)
+
+    @reg('cls:TextIO.write')
+    def _t_write(eng, st, args, kw, node):
+        f = _fobj(st, args[0])
+        if 'writes' in f:
+            f['writes'] = simp(num_binop('+', f['writes'], 1, Pending()))
+        return one(st, 0)
 
     @reg('cls:BinaryIO.tell')
     def _f_tell(eng, st, args, kw, node):
